@@ -9,6 +9,7 @@ namespace Strax.Lineage
 open Strax
 
 variable {K : Type} [DecidableEq K]
+set_option linter.unusedSectionVars false
 
 /-- every cached instance is what the registry and config `(r, c)` would produce now -/
 def GoodMap (r : Registry) (c : Config) (m : CacheMap) : Prop :=
@@ -202,7 +203,7 @@ theorem lookup_dictSet_isSome {m : CacheMap} {d x : String} {inst : PluginInst}
 /-- `getPlugin` on a good cache: the cache stays good, whatever was cached stays cached, a
 returned instance is in the cache, and whenever the pure `lineage` is defined at this fuel so is
 the result. -/
-theorem getPlugin_spec {r : Registry} {c : Config} (hc : NodupKeys c) (h : K) (n : Nat) (d : String)
+theorem getPlugin_spec {r : Registry} {c : Config} (h : K) (n : Nat) (d : String)
     (cache : Cache K) (hg : GoodCache r c h cache) :
     PluginSpec r c h n d cache (getPlugin r c h n d cache).1 (getPlugin r c h n d cache).2 := by
   induction n generalizing d cache with
@@ -294,7 +295,7 @@ theorem getPlugin_spec {r : Registry} {c : Config} (hc : NodupKeys c) (h : K) (n
                     exact ⟨_, ht, lookup_dictSet_isSome hs'⟩
                   · intro i hi
                     simp at hi; subst hi
-                    exact ⟨_, ht, by rw [lookup_dictSet]; simp⟩
+                    exact ⟨_, ht, by rw [lookup_dictSet]; simp [inst]⟩
                 · -- first instance under this hash: the dependencies list must be empty
                   have hnil : cls.dependsOn = [] := by
                     rcases hmem with hnil | ⟨m', hm', _⟩
@@ -316,6 +317,6 @@ theorem getPlugin_spec {r : Registry} {c : Config} (hc : NodupKeys c) (h : K) (n
                     exact absurd hm' (hno m')
                   · intro i hi
                     simp at hi; subst hi
-                    exact ⟨_, ht, by rw [lookup_cons']; simp⟩
+                    exact ⟨_, ht, by rw [lookup_cons']; simp [inst]⟩
 
 end Strax.Lineage
